@@ -168,7 +168,7 @@ def f2 : Bundle := ⟨idB, some (20, 30), 10, 9000, [0xB2, 9]⟩
 /-- a longer fragment with the offset and total of `f0` (made for a larger MTU) -/
 def f0L : Bundle := ⟨idB, some (0, 30), 20, 9000, [0xB3, 7, 7]⟩
 /-- `bA` after a block was removed (what `Core.receive` hands to `ReplaceBundle`) -/
-def bA' : Bundle := ⟨idA, none, 10, 5000, [0xA1, 1]⟩
+def bA2 : Bundle := ⟨idA, none, 10, 5000, [0xA1, 1]⟩
 
 /-- A parser for the example bundles: the first byte identifies the bundle, the rest is ignored. -/
 def exParse : Bytes → Option Bundle
@@ -177,7 +177,7 @@ def exParse : Bytes → Option Bundle
   | 0xB1 :: 8 :: 8 :: _ => some f1
   | 0xB2 :: 9 :: _ => some f2
   | 0xB3 :: 7 :: 7 :: _ => some f0L
-  | 0xA1 :: 1 :: _ => some bA'
+  | 0xA1 :: 1 :: _ => some bA2
   | _ => none
 
 theorem wf_bA : WF exParse bA := ⟨fun _ => rfl, fun o t h => by cases h <;> decide⟩
@@ -185,7 +185,7 @@ theorem wf_f0 : WF exParse f0 := ⟨fun _ => rfl, fun o t h => by cases h <;> de
 theorem wf_f1 : WF exParse f1 := ⟨fun _ => rfl, fun o t h => by cases h <;> decide⟩
 theorem wf_f2 : WF exParse f2 := ⟨fun _ => rfl, fun o t h => by cases h <;> decide⟩
 theorem wf_f0L : WF exParse f0L := ⟨fun _ => rfl, fun o t h => by cases h <;> decide⟩
-theorem wf_bA' : WF exParse bA' := ⟨fun _ => rfl, fun o t h => by cases h⟩
+theorem wf_bA2 : WF exParse bA2 := ⟨fun _ => rfl, fun o t h => by cases h⟩
 
 def exHistory : List Cmd :=
   [.op (.push bA), .op (.push f0), .op (.push f2), .op (.update idA true 7000 [("k", "v")]), .reopen]
@@ -338,11 +338,11 @@ example : exec exParse (exec exParse exState (.push f0L)) (.push f0) = exec exPa
 example : (queryId (exec exParse exState (.push f0L)) idB).map
     (isComplete exParse true (exec exParse exState (.push f0L))) = some true := by decide
 /-- `ReplaceBundle` swaps the bytes of the stored whole bundle, nothing else. -/
-example : (abs exParse (exec exParse exState (.replace bA'))) =
-    specStep (abs exParse exState) (.op (.replace bA')) := by decide
-example : (queryId (exec exParse exState (.replace bA')) idA).map
-      (fun it => it.parts.map (loadPart exParse (exec exParse exState (.replace bA')))) =
-    some [some bA'] := by decide
+example : (abs exParse (exec exParse exState (.replace bA2))) =
+    specStep (abs exParse exState) (.op (.replace bA2)) := by decide
+example : (queryId (exec exParse exState (.replace bA2)) idA).map
+      (fun it => it.parts.map (loadPart exParse (exec exParse exState (.replace bA2)))) =
+    some [some bA2] := by decide
 /-- Killed between the temporary file and the rename: the old bytes are still what reads back. -/
 example : abs exParse (crash exParse 1 exState (.push f0L)) = abs exParse exState ∧
     (get (tmpOf (partOf f0L).name) (crash exParse 1 exState (.push f0L)).files).isSome = true := by decide
